@@ -6,8 +6,9 @@
 // the script is valid AND every configured validator, asked ALONE about the descriptor, accepts it.
 //
 // Part B (epoch ticks): every history of length <= 5 over {NewEpoch(+1), NewEpoch(same), NewEpoch(+2),
-// NewEpoch(-1), NewEpoch(+1, unknown tx height), block reaching the deadline, early block, membership flip},
-// from a member and from a non-member start (quick tier: length <= 4, thorough: <= 6). Oracle (reference model of epoch counter and deadline): a block
+// NewEpoch(-1), NewEpoch(+1, unknown tx height), NewEpoch(+1) with a one-shot failure of each chain read its
+// handling performs, block reaching the deadline, early block, membership flip},
+// from a member and from a non-member start (quick tier: length <= 4). Oracle (reference model of epoch counter and deadline): a block
 // that makes the epoch timer fire makes an alphabet member ask netmap.newEpoch(EpochCounter+1) exactly once and
 // a non-member never; nothing else ever asks for a new epoch.
 package main
@@ -303,6 +304,57 @@ var (
 
 var opNames = []string{"NewEpoch+1", "NewEpoch=", "NewEpoch+2", "NewEpoch-1", "NewEpoch+1/unknown-tx-height", "block@deadline", "block-early", "flip-membership"}
 
+const baseOps = 8
+
+// fault letters (appended to opNames at start): "NewEpoch+1 while the k-th read named R made by the handling fails".
+// They are learnt from the reads the real NewEpoch handling performs (through the client hook).
+type faultLetter struct {
+	Read string
+	Nth  int
+}
+
+var faults []faultLetter
+
+func learnFaultLetters() error {
+	aw, err := newAWorld("learn", false)
+	if err != nil {
+		return err
+	}
+	defer aw.w.Close()
+	w := aw.w
+	if err := resetB(w, true); err != nil {
+		return err
+	}
+	tx := irworld.Hash256("learn")
+	w.Lock(func(t *irworld.Tables) { t.Epoch, t.LastEpochBlock, t.BlockCount = e0+1, h0+1, h0+2; t.TxHeight[tx] = h0 + 1 })
+	w.TraceReads = true
+	w.TakeReads()
+	w.Notify("fs", w.Netmap, "NewEpoch", tx, stackitem.NewBigInteger(big.NewInt(e0+1)))
+	seen := map[string]int{}
+	for _, rd := range w.TakeReads() {
+		if !irworld.FaultableRead(rd) {
+			continue // membership lookups (Committee, inner ring list) are C35's dimension; the rest cannot fail in the model
+		}
+		seen[rd]++
+		faults = append(faults, faultLetter{rd, seen[rd]})
+	}
+	if len(faults) < 4 {
+		return fmt.Errorf("NewEpoch handling performed only these faultable reads: %v", faults)
+	}
+	for _, f := range faults {
+		opNames = append(opNames, fmt.Sprintf("NewEpoch+1/fail:%s#%d", f.Read, f.Nth))
+	}
+	return nil
+}
+
+// timerState reads the real epoch timer (next tick timestamp, already fired).
+func timerState(w *irworld.World) (next uint64, done bool) {
+	if _, err := fmt.Sscanf(w.Srv.VerifTimers(), "e:%d/%t", &next, &done); err != nil {
+		panic(err)
+	}
+	return
+}
+
 type bcase struct {
 	StartMember bool
 	Ops         []int
@@ -345,11 +397,28 @@ func checkB(r *ev.Run, w *irworld.World, initDump string, c bcase, seq int) {
 	done := false
 	H := uint32(h0)
 	member := c.StartMember
+	faulted := false // a read failed while handling the last NewEpoch: the timer may legitimately not have been re-armed
 	var trace []string
 	for step, op := range c.Ops {
 		var want []string
-		switch op {
-		case 0, 1, 2, 3, 4:
+		switch {
+		case op >= baseOps:
+			// NewEpoch(E+1) is delivered while one read of its handling fails. Reference: the epoch IS E+1 from now on.
+			fl := faults[op-baseOps]
+			n := E + 1
+			H++
+			tx := irworld.Hash256(fmt.Sprintf("newepoch/%d/%d", seq, step))
+			w.Lock(func(t *irworld.Tables) {
+				t.Epoch, t.LastEpochBlock, t.BlockCount = n, H, H+1
+				t.TxHeight[tx] = H
+				t.SetReadFault(fl.Read, fl.Nth)
+			})
+			w.Notify("fs", w.Netmap, "NewEpoch", tx, stackitem.NewBigInteger(new(big.Int).SetUint64(n)))
+			w.Lock(func(t *irworld.Tables) { t.SetReadFault("", 0) })
+			E, faulted = n, true
+			deadline, done = timerState(w)
+		case op <= 4:
+			faulted = false
 			n := map[int]uint64{0: E + 1, 1: E, 2: E + 2, 3: E - 1, 4: E + 1}[op]
 			H++
 			tx := irworld.Hash256(fmt.Sprintf("newepoch/%d/%d", seq, step))
@@ -361,7 +430,11 @@ func checkB(r *ev.Run, w *irworld.World, initDump string, c bcase, seq int) {
 			})
 			w.Notify("fs", w.Netmap, "NewEpoch", tx, stackitem.NewBigInteger(new(big.Int).SetUint64(n)))
 			E, deadline, done = n, uint64(H)*1000+durS*1000, false
-		case 5, 6:
+		case op == 5 || op == 6:
+			if faulted {
+				// when the timer fires is the timers' business (C40): take it from the real timer
+				deadline, done = timerState(w)
+			}
 			if op == 5 {
 				if uint64(H+1)*1000 < deadline {
 					H = uint32(deadline / 1000)
@@ -378,7 +451,7 @@ func checkB(r *ev.Run, w *irworld.World, initDump string, c bcase, seq int) {
 					want = []string{fmt.Sprintf("[%d]", E+1)}
 				}
 			}
-		case 7:
+		case op == 7:
 			member = !member
 			setMember(w, member)
 		}
@@ -408,7 +481,7 @@ func checkB(r *ev.Run, w *irworld.World, initDump string, c bcase, seq int) {
 		}
 		if w.Srv.EpochCounter() != E {
 			r.Violation("epoch-counter-differs-from-last-notification", fmt.Sprintf("history %v: counter %d want %d", trace, w.Srv.EpochCounter(), E), c)
-			return
+			// keep going: a later tick shows what the node then asks for
 		}
 	}
 	r.Eval(1)
@@ -421,6 +494,9 @@ func checkB(r *ev.Run, w *irworld.World, initDump string, c bcase, seq int) {
 func main() {
 	r := ev.Start("C38", ev.Exploration)
 	if err := learnLocode(); err != nil {
+		r.Fatal("%v", err)
+	}
+	if err := learnFaultLetters(); err != nil {
 		r.Fatal("%v", err)
 	}
 	if r.Replay != "" {
@@ -490,13 +566,32 @@ func main() {
 
 	r.Set("part_a_wall_s", time.Since(t0).Seconds())
 	// ---- Part B ----
-	depth := 6
+	// quick: length <= 4, at most one fault letter per history; thorough: length <= 5 over all letters plus
+	// length 6 over the 8 fault-free letters
+	depth := 5
 	if r.Quick() {
 		depth = 4
 	}
 	var bcases []bcase
 	for d := 1; d <= depth; d++ {
 		enumx.Seqs(len(opNames), d, func(s []int) bool {
+			nf := 0
+			for _, o := range s {
+				if o >= baseOps {
+					nf++
+				}
+			}
+			if r.Quick() && nf > 1 {
+				return true
+			}
+			for _, m := range []bool{true, false} {
+				bcases = append(bcases, bcase{m, append([]int{}, s...)})
+			}
+			return true
+		})
+	}
+	if !r.Quick() {
+		enumx.Seqs(baseOps, 6, func(s []int) bool {
 			for _, m := range []bool{true, false} {
 				bcases = append(bcases, bcase{m, append([]int{}, s...)})
 			}
@@ -532,7 +627,8 @@ func main() {
 	r.Set("admission_cases", len(acases))
 	r.Set("epoch_histories", len(bcases))
 	r.Set("epoch_history_depth", depth)
-	r.Rule("A: full product key{plain,NNS-listed,malformed} x endpoints{ok,ok-tls,udp,garbage,unreachable,lying,none,ok+udp} x state{online,maintenance,offline,unknown} x LOCODE{none,good,wrong country,unknown} x verified domain{none,listed domain,other} x external verdict{accept,reject} x external validator configured{no,yes} x chain verdict on script{valid,invalid,error,valid+error} in member state (+ the valid-script half again for a non-member); non-trivial = member, valid tx, and at most one validator rejects. B: every operation history of length 1..depth (quick 4, thorough 6) over 8 operations from member and non-member start; non-trivial = distinct history prefix ending in a timer fire answered by a tick")
+	r.Set("epoch_history_letters", opNames)
+	r.Rule("A: full product key{plain,NNS-listed,malformed} x endpoints{ok,ok-tls,udp,garbage,unreachable,lying,none,ok+udp} x state{online,maintenance,offline,unknown} x LOCODE{none,good,wrong country,unknown} x verified domain{none,listed domain,other} x external verdict{accept,reject} x external validator configured{no,yes} x chain verdict on script{valid,invalid,error,valid+error} in member state (+ the valid-script half again for a non-member); non-trivial = member, valid tx, and at most one validator rejects. B: every operation history over 8 fault-free letters + one letter 'NewEpoch+1 while the k-th read R of its handling fails' per faultable read the real handler performs (learnt through the hook: epoch duration x2, tx height, block header, netmap snapshot), from member and non-member start; quick: length 1..4 with at most one fault letter; thorough: length 1..5 over all letters and length 6 over the fault-free ones; non-trivial = distinct history prefix ending in a timer fire answered by a tick")
 	r.Exhaustive(exhaustive)
 	r.Assume("the availability validator's dial, the external validator's HTTP call and the NNS read are environment: answered as pure functions of the descriptor",
 		"the per-validator verdict used by the oracle is the verdict of that validator's own Verify called alone on the descriptor (the composition and the wiring are under test, not each validator's rules)",
